@@ -174,6 +174,10 @@ def run(ck: core.Check):
             ck.samples.append(rows_to_csv(G.HEADERS, r["sample"]))
         for b in r["bad"]:
             if b["kind"] == "nonequiv":
+                if len(ck.violations) >= 2:
+                    ck.violation("compiled flow is not behaviourally equivalent to the meaning of the rows (not shrunk)",
+                                 {"csv": rows_to_csv(G.HEADERS, b["rows"]) + "#" * 2000, "rows": b["rows"], "answer": b["answer"]})
+                    continue
                 rows, ans = shrink(rp, drv, b["rows"])
                 ck.violation(
                     "compiled flow is not behaviourally equivalent to the meaning of the rows",
